@@ -102,8 +102,8 @@ fn first_lw(s: &Shape) -> Option<usize> {
 pub fn generate(reg: &Registry, args: &Args) -> Vec<Vec<String>> {
     let mut rng = Rng::new(args.seed);
     let mut cases: Vec<Vec<String>> = vec![];
-    let n_random = if args.thorough() { 120 } else { 14 };
-    let n_init = if args.thorough() { 60 } else { 10 };
+    let n_random = if args.thorough() { 150 } else { 30 };
+    let n_init = if args.thorough() { 60 } else { 14 };
     let mut id = 0usize;
     for (name, t) in reg.iter() {
         let shape = t.shape();
